@@ -49,8 +49,8 @@ Theorem C35_years_1970_to_9999 : forall z, 0 <= z < 2932897 ->
 Proof. exact civil_from_days_year_range. Qed.
 
 (* --- clause 2: the parser's answer on EVERY string of the three forms (all day names, all
-       2DIGIT / 4DIGIT field values), in closed form: form_answer accepts iff 1 <= day <= 31 and
-       hh <= 23, mm <= 59, ss <= 59, and then returns the day count of (y, month, day) linearly --- *)
+       2DIGIT / 4DIGIT field values), in closed form: form_answer is the denoted time when the
+       fields are a real calendar date with hh <= 23, mm <= 59, ss <= 59, and -1 otherwise --- *)
 Theorem C35_imf_fixdate_answer : forall wd d mon y hh mm ss,
   0 <= wd < 7 -> 0 <= d < 100 -> 0 <= mon < 12 -> 0 <= y < 10000 ->
   0 <= hh < 100 -> 0 <= mm < 100 -> 0 <= ss < 100 ->
@@ -69,32 +69,35 @@ Theorem C35_asctime_answer : forall wd mon d two hh mm ss y,
   ParseRfc1123 (asctime_date wd mon d two hh mm ss y) = form_answer y (mon + 1) d hh mm ss.
 Proof. exact asctime_answer. Qed.
 
-(* whenever a string of one of the forms is accepted (result <> -1) and its fields are a real
-   calendar date, the returned time is the one the string denotes.  PARTIAL: the hypothesis
-   valid_date cannot be dropped (C35_accepted_form_denotes_refuted) *)
-Theorem C35_imf_fixdate_accepted_denotes_partial : forall wd d mon y hh mm ss t,
+(* whenever a string of one of the forms is accepted (result <> -1), its fields are a real
+   calendar date and the returned time is the one the string denotes *)
+Theorem C35_imf_fixdate_accepted_denotes : forall wd d mon y hh mm ss t,
   0 <= wd < 7 -> 0 <= d < 100 -> 0 <= mon < 12 -> 0 <= y < 10000 ->
   0 <= hh < 100 -> 0 <= mm < 100 -> 0 <= ss < 100 ->
   ParseRfc1123 (imf_fixdate wd d mon y hh mm ss) = t -> t <> -1 ->
-  valid_date y (mon + 1) d = true ->
-  denoted_time y (mon + 1) d hh mm ss = Some t.
+  valid_date y (mon + 1) d = true /\ denoted_time y (mon + 1) d hh mm ss = Some t.
 Proof. exact imf_denotes. Qed.
 
-Theorem C35_rfc850_accepted_denotes_partial : forall wd d mon yy hh mm ss t,
+Theorem C35_rfc850_accepted_denotes : forall wd d mon yy hh mm ss t,
   0 <= wd < 7 -> 0 <= d < 100 -> 0 <= mon < 12 -> 0 <= yy < 100 ->
   0 <= hh < 100 -> 0 <= mm < 100 -> 0 <= ss < 100 ->
   ParseRfc1123 (rfc850_date wd d mon yy hh mm ss) = t -> t <> -1 ->
-  valid_date (yy_year yy) (mon + 1) d = true ->
-  denoted_time (yy_year yy) (mon + 1) d hh mm ss = Some t.
+  valid_date (yy_year yy) (mon + 1) d = true /\ denoted_time (yy_year yy) (mon + 1) d hh mm ss = Some t.
 Proof. exact rfc850_denotes. Qed.
 
-Theorem C35_asctime_accepted_denotes_partial : forall wd mon d two hh mm ss y t,
+Theorem C35_asctime_accepted_denotes : forall wd mon d two hh mm ss y t,
   0 <= wd < 7 -> 0 <= mon < 12 -> (if two : bool then 0 <= d < 100 else 0 <= d < 10) -> 0 <= y < 10000 ->
   0 <= hh < 100 -> 0 <= mm < 100 -> 0 <= ss < 100 ->
   ParseRfc1123 (asctime_date wd mon d two hh mm ss y) = t -> t <> -1 ->
-  valid_date y (mon + 1) d = true ->
-  denoted_time y (mon + 1) d hh mm ss = Some t.
+  valid_date y (mon + 1) d = true /\ denoted_time y (mon + 1) d hh mm ss = Some t.
 Proof. exact asctime_denotes. Qed.
+
+(* in particular a day that does not exist in the named month is rejected *)
+Theorem C35_nonexistent_day_rejected : forall wd d mon y hh mm ss,
+  0 <= wd < 7 -> 0 <= d < 100 -> 0 <= mon < 12 -> 0 <= y < 10000 ->
+  0 <= hh < 100 -> 0 <= mm < 100 -> 0 <= ss < 100 ->
+  valid_date y (mon + 1) d = false -> ParseRfc1123 (imf_fixdate wd d mon y hh mm ss) = -1.
+Proof. exact imf_nonexistent_day_rejected. Qed.
 
 (* conversely every string of the three forms that denotes a time is accepted with that time *)
 Theorem C35_denoting_forms_accepted : forall wd d mon y hh mm ss t,
@@ -105,17 +108,6 @@ Theorem C35_denoting_forms_accepted : forall wd d mon y hh mm ss t,
   (forall two : bool, (two = false -> d < 10) -> ParseRfc1123 (asctime_date wd mon d two hh mm ss y) = t) /\
   (forall yy, 0 <= yy < 100 -> yy_year yy = y -> ParseRfc1123 (rfc850_date wd d mon yy hh mm ss) = t).
 Proof. exact forms_accepted. Qed.
-
-(* REFUTED at full strength: a string in IMF-fixdate form that denotes no time ("Wed, 30 Feb 2000
-   00:00:00 GMT") is accepted, with the time of 1 Mar 2000 *)
-Theorem C35_accepted_form_denotes_refuted :
-  exists wd d mon y hh mm ss t,
-    (0 <= wd < 7 /\ 0 <= d < 100 /\ 0 <= mon < 12 /\ 0 <= y < 10000 /\
-     0 <= hh < 100 /\ 0 <= mm < 100 /\ 0 <= ss < 100) /\
-    ParseRfc1123 (imf_fixdate wd d mon y hh mm ss) = t /\ t <> -1 /\
-    denoted_time y (mon + 1) d hh mm ss = None /\
-    denoted_time y (mon + 2) 1 hh mm ss = Some t.
-Proof. exact accepted_nonexistent_day. Qed.
 
 (* non-vacuity: the three example dates of RFC 9110 section 5.6.7 and the hypotheses above *)
 Example C35_ex_format : FormatRfc1123 784111777 =
@@ -133,6 +125,10 @@ Example C35_ex_asctime : ParseRfc1123 (asctime_date 0 10 6 false 8 49 37 1994) =
   asctime_date 0 10 6 false 8 49 37 1994 =
   [83;117;110;32;78;111;118;32;32;54;32;48;56;58;52;57;58;51;55;32;49;57;57;52]%N.
 Proof. vm_compute. split; reflexivity. Qed.
+Example C35_ex_rejected : valid_date 2000 2 30 = false /\ ParseRfc1123 (imf_fixdate 3 30 1 2000 0 0 0) = -1 /\
+  valid_date 2000 2 29 = true /\ ParseRfc1123 (imf_fixdate 2 29 1 2000 0 0 0) = 951782400 /\
+  ParseRfc1123 (imf_fixdate 4 29 1 1900 0 0 0) = -1.
+Proof. vm_compute. repeat split; reflexivity. Qed.
 Example C35_ex_next_day : next_day (2000, 2, 29) = (2000, 3, 1) /\ next_day (1900, 2, 28) = (1900, 3, 1) /\
   next_day (9999, 12, 31) = (10000, 1, 1) /\ valid_date 2000 2 29 = true /\ valid_date 1900 2 29 = false.
 Proof. vm_compute. repeat split; reflexivity. Qed.
@@ -150,8 +146,8 @@ Print Assumptions C35_years_1970_to_9999.
 Print Assumptions C35_imf_fixdate_answer.
 Print Assumptions C35_rfc850_answer.
 Print Assumptions C35_asctime_answer.
-Print Assumptions C35_imf_fixdate_accepted_denotes_partial.
-Print Assumptions C35_rfc850_accepted_denotes_partial.
-Print Assumptions C35_asctime_accepted_denotes_partial.
+Print Assumptions C35_imf_fixdate_accepted_denotes.
+Print Assumptions C35_rfc850_accepted_denotes.
+Print Assumptions C35_asctime_accepted_denotes.
+Print Assumptions C35_nonexistent_day_rejected.
 Print Assumptions C35_denoting_forms_accepted.
-Print Assumptions C35_accepted_form_denotes_refuted.
